@@ -148,8 +148,9 @@ def gen_tree(rng, feats=None):
             add({"path": p, "kind": "file", "data": data, "flag": flag_for(p)})
             if rng.random() < 0.25:
                 add({"path": p + ".abstract", "kind": "file", "data": to_raw("About %s\nsecond line\n" % n), "flag": flag_for(p)})
-        if d and rng.random() < 0.4:
-            add({"path": join(d, ".abstract"), "kind": "file", "data": to_raw("About directory %s\n" % d.split("/")[-1]),
+        if (d and rng.random() < 0.4) or (not d and ("rootmeta" in feats or rng.random() < 0.5)):
+            add({"path": join(d, ".abstract"), "kind": "file",
+                 "data": to_raw("About directory %s\nsecond line of it\n" % (d.split("/")[-1] if d else "at the top")),
                  "flag": flag_for(d)})
         if rng.random() < 0.25:
             add({"path": join(d, ".hidden"), "kind": "file", "data": "dot file\n", "flag": flag_for(d)})
@@ -158,6 +159,8 @@ def gen_tree(rng, feats=None):
     for d in dirs:
         files_here = per_dir[d]
         r = rng.random()
+        if "rootmeta" in feats and d == "" and r >= 0.4:
+            r = rng.random() * 0.4          # the top of the archive gets a link file or a gophermap
         if r < 0.2 or ("links" in feats and d == ""):
             tgt = files_here[0]
             blocks = "Name=Renamed %s\nPath=./%s\nNumb=1\n\nName=Elsewhere\nType=1\nPath=/other\nHost=other.example\nPort=7070\n" % (tgt, tgt)
@@ -179,11 +182,18 @@ def gen_tree(rng, feats=None):
             rng.shuffle(lines)
             gm = "iWelcome to %s\tfake\t(NULL)\t0\nplain info line\n" % (d or "top") + "\n".join(lines) + "\n"
             add({"path": join(d, "gophermap"), "kind": "file", "data": to_raw(gm), "flag": flag_for(d)})
-        if rng.random() < 0.12 and files_here:
+        if (rng.random() < 0.12 or ("rootmeta" in feats and d == "")) and files_here:
             capd = join(d, ".cap")
             if capd not in dirs:
                 add({"path": capd, "kind": "dir", "explicit": rng.random() < 0.5, "flag": flag_for(capd)})
                 add({"path": join(capd, files_here[0]), "kind": "file", "data": "Name=Capped name\nNumb=2\n", "flag": flag_for(capd)})
+    if "bigfiles" in feats:
+        sizes = [66_000, 70_001] + ([1_150_000] if "hugefiles" in feats else [])
+        for i, n in enumerate(sizes):
+            d = rng.choice(dirs) if i else ""
+            blob = "".join(chr(rng.randrange(32, 127)) for _ in range(997)) + "\x00\xff\r\n"
+            data = (blob * (n // len(blob) + 1))[:n - 8] + "%08d" % n
+            add({"path": join(d, "big%d.bin" % i), "kind": "file", "data": data, "flag": False, "store": rng.random() < 0.8})
     # real-file-only content
     if "mbox" in feats or rng.random() < 0.3:
         d = rng.choice(dirs)
@@ -312,7 +322,7 @@ def members_of(tree, rng=None, order="tree"):
             out.append({"raw": to_raw(e["path"]), "utf8flag": bool(e.get("flag")), "kind": "link", "dest": to_raw(e["dest"])})
         else:
             out.append({"raw": to_raw(e["path"]), "utf8flag": bool(e.get("flag")), "kind": "file", "data": e["data"],
-                        "mode": e.get("mode", 0o644), "deflate": len(e["data"]) > 100})
+                        "mode": e.get("mode", 0o644), "deflate": len(e["data"]) > 100 and not e.get("store")})
     # an implicit directory that nothing mentions would vanish: keep it by an explicit member
     mentioned = set()
     for m in out:
@@ -456,3 +466,17 @@ def mutate_tree(tree, rng):
         out.append({"path": "newdir", "kind": "dir", "explicit": False, "flag": False})
         out.append({"path": "newdir/fresh.txt", "kind": "file", "data": "fresh\n", "flag": False})
     return out
+
+
+def containers(rng, n):
+    """how the archive file comes into being: who writes it and what happens to it afterwards"""
+    base = [{"writer": "zipfile"}, {"writer": "raw"}, {"writer": "infozip"},
+            {"writer": "raw", "descriptor": True, "comment": True}, {"writer": "infozip", "store_all": True},
+            {"writer": "raw", "store_all": True, "sfx": True}, {"writer": "infozip", "zip64": True}, {"writer": "infozip", "descriptor": True, "store_all": True},
+            {"writer": "zipfile", "sfx": True, "comment": True}, {"writer": "infozip", "comment": True, "sfx": True}]
+    out = []
+    while len(out) < n:
+        b = base[:]
+        rng.shuffle(b)
+        out.extend(b)
+    return out[:n]
